@@ -7,7 +7,7 @@ CONSTANTS
   MaxSub = 2
   NPat = 2
   OpSet <- Ops_all
-  TrimRef <- Ref_01
+  TrimRef <- Ref_012
   Mutant = "none"
 VIEW View
 INVARIANT TypeOK
